@@ -146,5 +146,6 @@ def feed(report, results, property_id):
                                  '%s: order %s observed %s expected %s (failed obligations: %s)' % (v['kind'], f.get('order'), f.get('observed'), f.get('expected'), v.get('obligations_failed')),
                                  {'kind': 'kernel', 'function': site, 'contract_key': r['key'], 'cfg': r['cfg'], **v})
         elif r['undecided']:
-            report.undecide('%s[%s]' % (site, r['cfg']), r['undecided'] + ' ; bounded native stand-in passed (%d cells)' % r['native_cells'])
+            report.undecide('%s[%s]' % (site, r['cfg']), r['undecided'] + (' ; bounded native stand-in passed (%d cells)' % r['native_cells'] if r['native_cells']
+                            else ' ; no per-function native oracle: only the bounded engine of this property speaks for this function'))
     return 3 if crashed else 0
